@@ -231,10 +231,10 @@ def register_builder_payload(w):
     N = nparr.register(w) if getattr(w, "npmodel", None) is None else w.npmodel
     ctxmodel.register(w)
     MB = "jax2onnx.converter.ir_builder"
-    w.fields[(BLD, "_function_mode")] = Bool
-    w.fields[(BLD, "graph")] = Ref(OPQ)
-    w.fields[(BLD, "_tape_builder")] = Ref(OPQ)
-    w.fields[(BLD, "nodes")] = Ref(OPQ)
+    w.fields.setdefault((BLD, "_function_mode"), Bool)
+    w.fields.setdefault((BLD, "graph"), Ref(OPQ))
+    w.fields.setdefault((BLD, "_tape_builder"), Ref(OPQ))
+    w.fields.setdefault((BLD, "nodes"), Ref(OPQ))
     as_f32 = w.fn("astype_float32", N.A, N.A)
 
     def astype_hook(ex, recv, name, args, kw):
@@ -274,14 +274,16 @@ def register_builder_payload(w):
     if mk_shape0 is not None:
         w.path_models["onnx_ir.Shape()"] = mk_shape
 
-    w.add_contract(Contract("jax2onnx.ir_utils:const_value_to_numpy", params={"value": Ref(OPQ)}, ret=Opt(Ref(FARR)), assumed=True,
-                            note="numpy view of a value's constant payload, or None"))
+    local_const_view = Contract("jax2onnx.ir_utils:const_value_to_numpy", params={"value": Ref(OPQ)}, ret=Opt(Ref(FARR)), assumed=True,
+                                note="numpy view of a value's constant payload, or None")
 
-    w.add_contract(Contract(f"{MB}:_dtype_to_ir", params={"dtype": Ref(nparr.DT), "enable_double": Bool}, ret=Enum("DataType"), assumed=True,
-                            note="declared element type for a numpy dtype (the policy itself is numpy_dtype_to_ir_with_float_policy, under contract over the dtype table)"))
+    # only while add_initializer_from_scalar is verified: there the argument is a dtype of the array model (specs/nparr.py), while the policy
+    # function is under contract over the dtype table (specs/npdtype.py); everywhere else _dtype_to_ir is executed from its source
+    local_dtype_to_ir = Contract(f"{MB}:_dtype_to_ir", params={"dtype": Ref(nparr.DT), "enable_double": Bool}, ret=Enum("DataType"), assumed=True,
+                                 note="declared element type of the Constant value in function mode; does not influence the payload")
 
-    w.add_contract(Contract(f"{MB}:IRBuilder._maybe_attach_stacktrace_to_nodes", params={"self": Ref(BLD), "nodes": Ref(OPQ)}, ret=NoneT, assumed=True,
-                            note="debug metadata on freshly created nodes; no effect on payloads"))
+    local_stacktrace = Contract(f"{MB}:IRBuilder._maybe_attach_stacktrace_to_nodes", params={"self": Ref(BLD), "nodes": Ref(OPQ)}, ret=NoneT, assumed=True,
+                                note="debug metadata on freshly created nodes; no effect on payloads")
 
     def post_payload(c: Ctx):
         ex = c.ex
@@ -295,8 +297,11 @@ def register_builder_payload(w):
             return z3.BoolVal(True)       # the existing-initializer path stores nothing new
         return got[0] == want
 
-    w.add_contract(Contract(
+    c_payload = Contract(
         f"{MB}:IRBuilder.add_initializer_from_scalar", params={"self": Ref(BLD), "name": Str, "value": Ref(FARR)},
         ensures=[("stored_payload_follows_the_precision_policy_in_every_mode", post_payload)], raises={"ValueError"}, ret=Ref(OPQ),
         props=["C09"], opaque_externals=True, witnesses=["C09_builder_payload_family"], ghost_init=record_payloads,
-    ))
+    )
+    c_payload.local_contracts = {f"{MB}:_dtype_to_ir": local_dtype_to_ir, "jax2onnx.ir_utils:const_value_to_numpy": local_const_view,
+                                 f"{MB}:IRBuilder._maybe_attach_stacktrace_to_nodes": local_stacktrace}
+    w.add_contract(c_payload)
